@@ -821,6 +821,18 @@ static Subtree ts_parser__reuse_node(
                    : end_byte_offset + ts_subtree_lookahead_bytes(result)
                )) {
       reason = "contains_different_included_range";
+    } else if (
+      ts_subtree_depends_on_column(result) &&
+      self->included_range_differences.size > 0
+    ) {
+      // The column that the lexer reports counts the characters of the included
+      // ranges on the current line, so a token that depends on its column is also
+      // invalidated by a difference earlier on its line.
+      Length start = ts_stack_position(self->stack, version);
+      uint32_t line_start_byte = start.bytes - start.extent.column;
+      if (ts_range_array_intersects(&self->included_range_differences, 0, line_start_byte, byte_offset)) {
+        reason = "column_depends_on_different_included_range";
+      }
     }
 
     if (reason) {
